@@ -7,7 +7,7 @@ from common import *
 from p_histfile import enc, dec
 
 ENTRIES = ["a", "ab", " a", "b", "é", "a b", "git status", "ls -l src", "echo git", "Git log", "make git-hooks", "x", "",
-           "日本", "a", "b", "two words", "\tx"]
+           "日本", "a", "b", "two words", "\tx", "\u3000wide blank", "\u00a0nbsp", "\u2003em", "\x0bvt", "\u3000"]
 TERMS = ["a", "git", "g", "ls", "src", "G", "é", "b", "status", "xyz"]
 ODD_TERMS = ["\"", "(", "-l", "a b", "ls!!", "*", "AND", "a\"b", "'", "a-b", ".", "^a", "日"]
 
